@@ -311,8 +311,20 @@ func CheckStream(t *rapid.T, spec ProtoSpec, rec *Rec) {
 	rrw := &RW{In: stream, Chunks: chunks, Cycle: cycle}
 	rp := spec.Fn()(rrw)
 	consumed := 0
+	// like a session's read loop, decode every frame of the stream into ONE recycled
+	// message (reset between frames) in half of the cases, into fresh ones otherwise
+	recycle := spec.Receiver == nil && len(chunks)%2 == 0
+	var pooled socket.Message
 	for i, m := range msgs {
 		got := spec.receiver()
+		if recycle {
+			if pooled == nil {
+				pooled = got
+			} else {
+				pooled.Reset(socket.WithNewBody(func(socket.Header) interface{} { return new([]byte) }))
+				got = pooled
+			}
+		}
 		var uerr error
 		func() {
 			defer func() {
